@@ -61,6 +61,22 @@ func init() {
 // allocation by claimed sizes: the unrepaired devmod took 201 MB for a 30-byte nummodules of 4194304.
 func c10AllocBound(n int) uint64 { return uint64(64*n) + 32<<20 }
 
+// c10AllocBoundAt is the bound at a message position. Only two positions have a bounded structure that a
+// small message can legitimately fill (the owner's devmod module list at 68: 65535 slots, 5 MB measured; the
+// device's queue of service-info pipes at 69: 13 MB measured); everywhere else what a message costs beyond
+// the part proportional to its size stays below 0.15 MB (RSA and DH arithmetic, X.509 parsing, certificate
+// signing), and the constant is 2 MiB. The maxima measured per position are in the evidence
+// (extra.alloc_max_excess_by_position).
+func c10AllocBoundAt(position string, n int) uint64 {
+	switch {
+	case strings.Contains(position, "cli69"):
+		return uint64(64*n) + 32<<20
+	case strings.Contains(position, "srv68"):
+		return uint64(64*n) + 16<<20
+	}
+	return uint64(64*n) + 2<<20
+}
+
 const c10Watchdog = 20 * time.Second
 
 type c10Env struct {
@@ -141,7 +157,14 @@ func c10(x *runCtx) {
 			c10Client(e, w, c.nStruct, c.nBy, c.nRandom)
 		}
 	}
-	x.r.Extra["alloc_max_excess_by_position"] = e.maxByPos
+	top := map[string]uint64{}
+	for k, v := range e.maxByPos {
+		if v >= 32<<10 {
+			top[k] = v
+		}
+	}
+	x.r.Extra["alloc_max_excess_by_position"] = top
+	x.r.Extra["alloc_bound_by_position"] = "64*len + 2 MiB; srv68: 64*len + 16 MiB; cli69: 64*len + 32 MiB"
 	x.r.Extra["alloc_honest_or_mutant_max_server_bytes"] = e.maxSrvAlloc
 	x.r.Extra["alloc_honest_or_mutant_max_client_bytes"] = e.maxCliAlloc
 	x.r.Extra["alloc_max_server_case"] = e.maxSrvWhat
